@@ -49,6 +49,8 @@ class QuicConn:
             self.cid["s"] = bytes.fromhex(p["cid_s"])
         self.dcid_now = {"c": self.odcid, "s": self.cid["c"]}                         # DCID each side currently sends to
         self.pn = {d: {"i": 0, "h": 0, "a": 0} for d in "cs"}
+        for d, sp in (p.get("pn_start") or {}).items():      # first packet number of a space (the observer decodes relative to what it has seen:
+            self.pn[d].update(sp)                            # any value below 2^32 is decodable from a 4-byte encoding)
         self.largest_seen = {d: {"i": -1, "h": -1, "a": -1} for d in "cs"}            # as the observer sees it
         self.pnlen = dict(p.get("pnlen", {"c": 2, "s": 1}))
         self.gen = {"c": 0, "s": 0}                                                   # send key generation per direction
@@ -91,7 +93,8 @@ class QuicConn:
 
     # ------------------------------------------------------------ packets
     def _pn(self, d, sp, skip=0, pnlen=None):
-        self.pn[d][sp] += skip
+        if self.largest_seen[d][sp] >= 0:       # the first packet of a space is sent at the start value (decodable without history)
+            self.pn[d][sp] += skip
         n = self.pn[d][sp]
         self.pn[d][sp] += 1
         ln = pnlen or self.pnlen[d]
